@@ -299,6 +299,18 @@ func (w *world) afterRotations(s *slot, k int) error {
 // flushRoom / compRoom: how many tasks the harness lets wait in a queue before it runs tasks first. Never more than the queue of the
 // code under test accepts without blocking the caller of Enqueue (the harness holds the gate of the running task, so a blocked caller
 // would wait for ever), and never more than 3 (the bound the histories were generated with).
+// compWaiting: a compaction task of database s is queued and has not started. The harness never lets a flush task of s reach its end in
+// that state: whether such a flush enqueues ANOTHER compaction task behind the waiting one is a policy of the code under test (it may
+// coalesce them), and the harness counts the queued tasks. With at most one waiting task per database both policies enqueue the same.
+func (w *world) compWaiting(s *slot) bool {
+	for _, t := range w.compQ {
+		if t.slot == s {
+			return true
+		}
+	}
+	return false
+}
+
 func (w *world) flushRoom() int { return max(1, min(3, w.capF)) }
 func (w *world) compRoom() int  { return max(1, min(3, w.capC)) }
 
@@ -1334,11 +1346,13 @@ func (r *runner) drain(s *slot, max int, silent bool) error {
 			}
 			return nil
 		}
-		if c := r.w.actComp; t.kind == "flush" && t.point == "end" && c != nil && c.slot == s && len(r.w.compQ) >= r.w.capC {
-			// the flush task is about to enqueue its compaction and the compaction queue takes no more: the running compaction goes first
-			t = c
+		ts := s
+		if c := r.w.actComp; t.kind == "flush" && t.point == "end" && c != nil && c.slot.state == "live" && (len(r.w.compQ) >= r.w.capC || r.w.compWaiting(s)) {
+			// the flush task is about to enqueue its compaction: the running compaction goes first when the compaction queue takes no
+			// more, and when a compaction task of this database is still waiting to start (see compWaiting)
+			t, ts = c, c.slot
 		}
-		if err := r.stepTask(s, t, silent, 0); err != nil {
+		if err := r.stepTask(ts, t, silent && ts == s, 0); err != nil {
 			return err
 		}
 	}
@@ -2085,7 +2099,7 @@ func execute(c *hx.Case) (*hx.Result, error) {
 			if t == nil {
 				continue
 			}
-			if t.kind == "flush" && t.point == "end" && len(w.compQ) >= w.compRoom() {
+			if t.kind == "flush" && t.point == "end" && (len(w.compQ) >= w.compRoom() || w.compWaiting(s)) {
 				continue
 			}
 			r.noteWork(s)
